@@ -254,9 +254,17 @@ reg(Prop(
 def plan_c11(tier, seed):
     jobs = []
     r = 50 if tier == "quick" else 2000
-    for cfg, n, rr in ((Config("dbg"), 4, r), (Config("rel"), 4, r), (Config("miri-dbg"), 12, 1), (Config("miri-rel"), 12, 1), (Config("asan"), 2, r)):
-        if tier == "thorough" and cfg.tool.startswith("miri"):
-            n, rr = 16, 8
+    for cfg, n, rr in ((Config("dbg"), 4, r), (Config("rel"), 4, r), (Config("miri-dbg"), 8, 1), (Config("miri-rel"), 8, 1), (Config("asan"), 2, r)):
+        if cfg.tool.startswith("miri"):
+            if tier == "thorough":
+                jobs += shards(cfg, "borrow", "small", 16, 8, seed, nshards_arg=True, timeout=3000)
+            else:
+                # quick: the interpreter sees every pair once - even sixteenths of the matrix with
+                # debug assertions on, odd sixteenths with them off (natively every pair runs in both)
+                off = 0 if cfg.tool == "miri-dbg" else 1
+                for s in range(n):
+                    jobs.append(Job(cfg, ["borrow", f"seed={seed}", f"shard={2 * s + off}", f"ops={rr}", "world=small", "nshards=16", "small=1"], timeout=3000))
+            continue
         jobs += shards(cfg, "borrow", "small", n, rr, seed, nshards_arg=True, timeout=3000)
     jobs += history_plan("faults", tier, seed + 7, leaks=False, scale=0.25, tools=("dbg", "rel"), worlds=("small",))
     return jobs
@@ -266,7 +274,7 @@ reg(Prop(
     "C11", "exploration", plan_c11,
     accept=["C11"],
     floors={"judged.conflict": 2000, "judged.compatible": 30000, "conflict.panicked_as_required": 2000, "boom.unwound_through_borrow": 100, "nests": 20000},
-    rule="exhaustive depth-2 matrix: outer x inner over 79 accesses {ecs_find_borrow!, Borrow::component(_mut) (archetype and world level)} x {shared, mutable} x {2 archetypes} x {2 columns} x {entity 0, entity 1, stale handle}, {ecs_iter_borrow!, borrow_slice(_mut)} x {shared, mutable} x archetypes x columns, world.clone(), and - with parameters the macros have to resolve themselves - ecs_find_borrow!/ecs_iter_borrow! over &(mut) OneOf<Pa, Pb> (a different column in each archetype), ecs_find_borrow! with an EntityAny key and |&EntityAny, &(mut) Ha| (query matches both archetypes, the key picks one) and ecs_iter_borrow! over |&EntityAny, &(mut) Ha| (holds one archetype's column at a time), in three world states (both populated, either archetype empty) = 18723 pairs, plus injected panics unwinding through one and two held borrows and random depth 3-5 nestings. A shadow of RefCell's reader/writer rule per (archetype, column) decides for every inner access: conflict => must panic with a borrow error, compatible => must be granted and see the model's values; after each nest every column must accept borrow_slice_mut again. Miri's aliasing model is the independent second opinion on the same matrix. distinct_nontrivial = depth-2 pairs enumerated (exact: processes enumerate disjoint cases; repeated per tool)",
+    rule="exhaustive depth-2 matrix: outer x inner over 79 accesses {ecs_find_borrow!, Borrow::component(_mut) (archetype and world level)} x {shared, mutable} x {2 archetypes} x {2 columns} x {entity 0, entity 1, stale handle}, {ecs_iter_borrow!, borrow_slice(_mut)} x {shared, mutable} x archetypes x columns, world.clone(), and - with parameters the macros have to resolve themselves - ecs_find_borrow!/ecs_iter_borrow! over &(mut) OneOf<Pa, Pb> (a different column in each archetype), ecs_find_borrow! with an EntityAny key and |&EntityAny, &(mut) Ha| (query matches both archetypes, the key picks one) and ecs_iter_borrow! over |&EntityAny, &(mut) Ha| (holds one archetype's column at a time), in three world states (both populated, either archetype empty) = 18723 pairs, plus injected panics unwinding through one and two held borrows and random depth 3-5 nestings. A shadow of RefCell's reader/writer rule per (archetype, column) decides for every inner access: conflict => must panic with a borrow error, compatible => must be granted and see the model's values; after each nest every column must accept borrow_slice_mut again. Miri's aliasing model is the independent second opinion on the same matrix (quick tier: each pair interpreted once, half of the matrix with debug assertions on and half with them off; thorough: all of it in both profiles). distinct_nontrivial = depth-2 pairs enumerated (exact: processes enumerate disjoint cases; repeated per tool)",
     nontrivial_key="depth2_pairs", assumptions=COMMON_ASSUME, design_ref="DESIGN.md section 4, C11", distinct_merge="sum"))
 
 
